@@ -251,6 +251,19 @@ example :
     ((c.shared.get (s "one/add-2")).map (·.data)) = some (.int 3) := by
   decide +kernel
 
+-- `oracle_refines` is exercised: against two misses the run of `one/add-2` does not starve, its answers are (trivially) good,
+-- and it returns 3
+open Ex in
+example :
+    GoodPairs env0 (evalQO env0 9 { answers := [none, none] } qOneAdd (s "one/add-2") .none none true).1.trace [none, none] ∧
+    (evalQO env0 9 { answers := [none, none] } qOneAdd (s "one/add-2") .none none true).1.starved = false ∧
+    (evalQO env0 9 { answers := [none, none] } qOneAdd (s "one/add-2") .none none true).2.obs.map (·.value) =
+      some (some (.int 3)) := by
+  refine ⟨fun i k a _ ha => ?_, by decide +kernel, by decide +kernel⟩
+  have : a = none := by
+    have := List.mem_of_getElem? ha; simpa using this
+  subst this; exact GoodAns.none _ _
+
 -- the theorems apply to it: the final cache is `Sound`
 open Ex in
 example : Sound env0 (finishAll env0 20 (runSchedule env0 (startAll env0 cfg0) [0, 0, 1, 0, 1, 0, 1])).shared :=
